@@ -21,16 +21,22 @@ pub fn cases(ctx: &Ctx) -> Vec<Case> {
     let mut out = vec![];
     for p in prim_corpus() { out.push(prim_case(Codec::Ele, &p)); out.push(prim_case(Codec::Ebe, &p)); }
     for s in corpus() { out.push(ds_case(&s)); }
+    // whole files: one per registered transfer syntax first (every row of Gen/GenTsWrite.v is exercised)
+    for f in crate::file::corpus_files(&pools) { out.push(crate::file::file_case(&f)); }
     let mut idx = 0usize;
     while out.len() < ctx.n {
         match r.below(10) {
-            0..=2 => { let p = gen_prim(&mut r); out.push(prim_case(*r.pick(&[Codec::Ele, Codec::Ebe]), &p)); }
-            3..=4 => { let p = gen_prim(&mut r); let vi = r.below(34) as usize; out.push(elem_case(*r.pick(&CODECS), vi, &p, &mut r)); }
+            0..=1 => { let p = gen_prim(&mut r); out.push(prim_case(*r.pick(&[Codec::Ele, Codec::Ebe]), &p)); }
+            2..=3 => { let p = gen_prim(&mut r); let vi = r.below(34) as usize; out.push(elem_case(*r.pick(&CODECS), vi, &p, &mut r)); }
+            4..=5 => { let f = crate::file::gen_file(&mut r, &pools, idx); idx += 1; out.push(crate::file::file_case(&f)); }
             _ => { let s = gen_scenario(&mut r, &pools, idx, false); idx += 1; out.push(ds_case(&s)); }
         }
     }
+    // value/data-set level cases are wrapped for the checker that also knows files
+    for c in out.iter_mut() { if c.coq.starts_with("(C4P") || c.coq.starts_with("(C4D") { c.coq = format!("(C4A {})", c.coq); } }
     out
 }
+pub fn tables(out: &str) { crate::file::tables(out) }
 
 fn ds_case(s: &Scenario) -> Case {
     let v = evaluate(s);
